@@ -10,6 +10,7 @@ import (
 	_ "polycheck/props/c06"
 	_ "polycheck/props/c07"
 	_ "polycheck/props/c08"
+	_ "polycheck/props/c09"
 	_ "polycheck/props/c10"
 	_ "polycheck/props/c11"
 	_ "polycheck/props/c12"
